@@ -180,7 +180,14 @@ func VH_C04_linear() {
 	for i := 0; i+1 < k; i++ {
 		flow.Connect(nodes[i], "next", nodes[i+1])
 	}
+	// ordinary action labels that merely SOUND like error handling are just labels: a failing node
+	// ends the run, whatever transitions it has
+	sink := c04NewProbe(m, "next")
+	for i := 0; i < k; i++ {
+		flow.Connect(nodes[i], "error", sink).Connect(nodes[i], "fail", sink).Connect(nodes[i], "retry", nodes[i])
+	}
 	err := flow.Run(vNewCtx(), NewSharedStore())
+	vAssert(sink.execs == 0, "no-callback-after-the-ending-error")
 	if m.dead && m.calls > 4 {
 		vCover("fail-in-later-node")
 	}
